@@ -71,6 +71,9 @@ def gen_case(rng, tier, index):
             a["size"] = rng.choice(SIZES) + rng.choice([0, 0, 1, 7, 13, rng.randrange(512)])
             a["tag"] = "%x" % rng.getrandbits(32)
             a["nfiles"] = rng.choice([1, 1, 2, 4])
+        if k in ("upload", "mirror"):
+            # configuration knob: explicit file/directory modes take another publish path (chmod first)
+            a["modes"] = rng.random() < 0.3
         if k == "upload":
             a["nofail"] = rng.random() < 0.2
         if k == "mirror":
@@ -231,7 +234,10 @@ def act_upload(root, a, stride, rounds):
     _install(stride)
     from bob.archive import LocalArchive
     flags = ["download", "upload"] + (["nofail"] if a.get("nofail") else [])
-    ar = LocalArchive({"backend": "file", "path": os.path.join(root, "arch"), "flags": flags})
+    spec = {"backend": "file", "path": os.path.join(root, "arch"), "flags": flags}
+    if a.get("modes"):
+        spec.update({"fileMode": 0o640, "directoryMode": 0o750})
+    ar = LocalArchive(spec)
     ar.wantUploadLocal(True)
     def go(r):
         pdir = _pdir(root, a, r)
@@ -245,8 +251,11 @@ def act_mirror(root, a, stride, rounds):
     from bob.archive import LocalArchive
     src = LocalArchive({"backend": "file", "path": os.path.join(root, "src", a["name"])})
     src.wantDownloadLocal(True)
-    cache = LocalArchive({"backend": "file", "path": os.path.join(root, "arch"),
-                          "flags": ["download", "upload", "cache"] + (["nofail"] if a.get("nofail") else [])})
+    spec = {"backend": "file", "path": os.path.join(root, "arch"),
+            "flags": ["download", "upload", "cache"] + (["nofail"] if a.get("nofail") else [])}
+    if a.get("modes"):
+        spec.update({"fileMode": 0o640, "directoryMode": 0o750})
+    cache = LocalArchive(spec)
     def go(r):
         out = os.path.join(root, "out", "%s.%d" % (a["name"], r))
         os.makedirs(out)
